@@ -164,7 +164,12 @@ func TestC18_P_RecursiveImport(t *testing.T) {
 				}
 				feats["flaky-store"] = true
 			}
-			must(t, "BuildUnixFSRecursive", func() { link, _, berr = builder.BuildUnixFSRecursive(p, ls) })
+			// the same directory under another spelling of its path (what a shell's tab completion or a config file gives)
+			spelled := p + rapid.SampledFrom([]string{"", "", "/", "//", "/.", "/./"}).Draw(t, "rootSpelling")
+			if spelled != p {
+				feats["root-path-spelling"] = true
+			}
+			must(t, "BuildUnixFSRecursive", func() { link, _, berr = builder.BuildUnixFSRecursive(spelled, ls) })
 			if berr == nil && link != nil {
 				must(t, "read back", func() { cerr = c18Compare(st, ls, cidOf(link), root, "") })
 			}
